@@ -114,7 +114,7 @@ def run(tier, seed):
             if v == '2.1' and 'Crash:TypeError' in on[0] and agree:
                 key = 'D2:2.1:group-none-ref'
             elif any(x in ex.get(v, []) for x in names) and agree:
-                key = 'T:%s:%s' % (v, [x for x in names if x in ex.get(v, [])][0])
+                key = ['T:%s:%s' % (v, x) for x in names if x in ex.get(v, [])]
             chk.fail(key, {'clause': 'instance-parses', 'got': on[0][:80], **rep}, rep)
             continue
         _, er7h, tree = on[0].split(' ', 2)
